@@ -15,15 +15,20 @@ PY = "/venv/bin/python"
 DRIVER = os.path.join(os.path.dirname(os.path.abspath(__file__)), "run_driver.py")
 
 
+# a documented command with too few arguments: reported in the log, no entry - and nothing of where the file lies
+MALFORMED = "#[[[\n# malformed on purpose\n#]]\noption(ONLY_A_NAME)\n"
+
+
 def module_text(seed, n=25):
     import aggtrace
     rng = random.Random(seed)
     return "#[[[\n# top function of module %d\n# :keyword x: y\n#]]\nfunction(top_%d a b)\n  cmake_parse_arguments(x \"\" \"\" \"\" ${ARGN})\nendfunction()\n" % (seed, seed) \
-        + aggtrace.gen_program(rng, n)
+        + (MALFORMED if seed % 2 == 1 else "") + aggtrace.gen_program(rng, n)
 
 
 TREES = {
-    "treeA": {"x.cmake": 11, "b.cmake": 12, "a_gen.cmake": 18, "keep_gen.cmake": 19, "sub/c_gen.cmake": 20, "sub/y.cmake": 13, "sub/Y.cmake": 23, "sub/Z.CMAKE": 14, "sub/z2.cmake": 15, "sub/deep/w.cmake": 16, "sub/notes.txt": None, "aa/q.cmake": 17},
+    # (sub/x.cmake has the contents and the base name of x.cmake: only the relative path tells them apart)
+    "treeA": {"x.cmake": 11, "sub/x.cmake": 11, "b.cmake": 12, "a_gen.cmake": 18, "keep_gen.cmake": 19, "sub/c_gen.cmake": 20, "sub/y.cmake": 13, "sub/Y.cmake": 23, "sub/Z.CMAKE": 14, "sub/z2.cmake": 15, "sub/deep/w.cmake": 16, "sub/notes.txt": None, "aa/q.cmake": 17},
     "treeB": {"m.cmake": 21, "k/n.cmake": 22},
     "flat": {"f1.cmake": 31, "f2.cmake": 32},
 }
@@ -158,6 +163,27 @@ def c17_case(beh, sandbox, baseline_cache, lock):
         return {"files": sorted(want), "first_differing": first, "content": want.get(first, b"").decode("utf8", "replace")[:600]}, \
                {"files": sorted(got), "content": got.get(first, b"").decode("utf8", "replace")[:600]}, \
                "generated files differ from those of the canonical run (each input alone, from its parent directory, sorted listing, hash seed 0)"
+    # the title of every page is made of the prefix and the file's path relative to its input, whatever else the
+    # process has seen (two files with the same contents and base name are still two files)
+    for inp in inputs:
+        pre = "pfx" if desc["prefix"] != "<none>" else (inp["name"] if inp["kind"] == "dir" else None)
+        srcs = list(TREES[inp["name"]]) if inp["kind"] == "dir" else [inp["name"]]
+        for rel in srcs:
+            if not rel.lower().endswith(".cmake"):
+                continue
+            page = got.get(".".join(rel.split(".")[:-1]) + ".rst") if inp["kind"] == "dir" else got.get(".".join(os.path.basename(rel).split(".")[:-1]) + ".rst")
+            if page is None:
+                continue
+            shown = rel[:-len(".cmake")] if rel.endswith(".cmake") else rel
+            if inp["kind"] != "dir":
+                shown = os.path.basename(shown)
+            want_title = (pre + "." if pre else "") + shown
+            lines = [l for l in page.decode("utf8", "replace").split("\n") if l.strip()]
+            title = lines[1] if len(lines) > 2 else None
+            if title != want_title:
+                twins = [r for r in srcs if r != rel and os.path.basename(r) == os.path.basename(rel)]
+                if twins or title is None:
+                    return {rel: want_title}, {rel: title}, "a page is not titled with the prefix and its own relative path"
     # what a page shows besides its path-derived title and module name depends on the file's contents and the settings
     # only - not on what the same process documented before it: compare with the file documented alone
     for inp in inputs:
@@ -302,9 +328,10 @@ def cmake_quote(x):
     return '"' + x.replace("\\", "\\\\").replace('"', '\\"').replace("$", "\\$") + '"'
 
 
-def genrst_case(beh, sandbox):
-    """GenRst.tla: a history of edits, page deletions and calls of cminx_gen_rst on one build tree; after the last
-    call the output tree must be what the command line produces for the inputs as they are now"""
+def genrst_case(beh, sandbox, route="cmake"):
+    """GenRst.tla: a history of edits, page deletions and calls on one build tree - calls of cminx_gen_rst through
+    cmake -P (route "cmake") or of the command line itself into the same output directory (route "cli"); after the
+    last call the output tree must be what a fresh command-line run produces for the inputs as they are now"""
     inp_root = os.path.join(sandbox, "IN")
     materialise(inp_root)
     home = os.path.join(sandbox, "home")
@@ -339,10 +366,19 @@ def genrst_case(beh, sandbox):
         elif act == "edit-settings":
             nset += 1
             write_settings(nset)
+        elif act == "edit-backdated":
+            pth = os.path.join(tree, "sub", "y.cmake")
+            with open(pth, "a") as fh:
+                fh.write("#[[[\n# back-dated revision %d\n#]]\nfunction(backdated_%d)\nendfunction()\n" % (k, k))
+            os.utime(pth, (946684800 + k, 946684800 + k))         # 1 January 2000: older than any page
         elif act == "delete-page":
             pg = os.path.join(out_cmake, "x.rst")
             if os.path.exists(pg):
                 os.unlink(pg)
+        elif act == "call" and route == "cli":
+            rc, so, se = run_process([tree, "-r", "-s", sfile, "-o", out_cmake], sandbox, home)
+            if rc != 0:
+                return "exit status 0", se[-300:], "the command line failed on valid input"
         elif act == "call":
             p = subprocess.run(["cmake", "-P", script], cwd=sandbox, stdout=subprocess.PIPE, stderr=subprocess.PIPE, timeout=300)
             if p.returncode != 0:
@@ -359,24 +395,24 @@ def genrst_case(beh, sandbox):
     return None
 
 
-def replay_genrst(run, behs):
+def replay_genrst(run, behs, route="cmake"):
     base = tempfile.mkdtemp(prefix="verif_genrst_", dir="/dev/shm" if os.path.isdir("/dev/shm") else None)
 
     def one(item):
         n, beh = item
         sb = tempfile.mkdtemp(prefix="g_", dir=base)
         try:
-            return n, genrst_case(beh, sb)
+            return n, genrst_case(beh, sb, route)
         finally:
             subprocess.run(["rm", "-rf", sb])
     try:
         with ThreadPoolExecutor(max_workers=lib.NCPU) as ex:
             for n, r in ex.map(one, list(enumerate(behs))):
                 run.behaviours += 1
-                run.count("genrst:" + "|".join(behs[n]["hist"]))
+                run.count("genrst-%s:" % route + "|".join(behs[n]["hist"]))
                 if r is not None:
                     exp, got, why = r
-                    run.violation({"history": behs[n]["hist"], "features": {"calls": behs[n]["hist"].count("call")}}, exp, got, why)
+                    run.violation({"history": behs[n]["hist"], "route": route, "features": {"calls": behs[n]["hist"].count("call")}}, exp, got, why)
         if behs:
             run.sample({"history_of_calls_and_edits": behs[len(behs) // 2]["hist"]})
     finally:
